@@ -73,8 +73,9 @@ class Fn:
 class Obj:
     """Record with named attributes (the transformation object, SciPy's result object)."""
 
-    def __init__(self, name, **attrs):
+    def __init__(self, name, cls=None, **attrs):
         self.name = name
+        self.cls = cls
         self.attrs = attrs
 
     def __repr__(self):
@@ -82,11 +83,29 @@ class Obj:
 
 
 class Closure:
+    """A nested function: free variables are read from the enclosing environment at call time (late
+    binding, as in Python), default values are evaluated when the `def` is executed."""
+
     def __init__(self, node, env, interp, module_funcs):
         self.node, self.env, self.interp = node, env, interp
+        params = [a.arg for a in node.args.args]
+        self.defaults = {p_: interp.ev(d, env) for p_, d in
+                         zip(params[len(params) - len(node.args.defaults):], node.args.defaults)}
 
     def __call__(self, *args, **kw):
-        return self.interp.call_def(self.node, list(args), kw, self.env)
+        return self.interp.call_def(self.node, list(args), kw, self.env, self.defaults)
+
+
+class Cls:
+    """A class of the package used only in isinstance tests / as a constructor stub."""
+
+    def __init__(self, name, ctor=None):
+        self.name, self.ctor = name, ctor
+
+    def __call__(self, *args, **kw):
+        if self.ctor is None:
+            raise Undecided(f"constructor of {self.name}")
+        return self.ctor(*args, **kw)
 
 
 class Unknown:
@@ -161,31 +180,53 @@ def bell_incomplete(n, k, seq):
 
 # ----------------------------------------------------------------------------------- interpreter
 class Interp:
-    def __init__(self, module_funcs, externals=None, number_like=()):
+    #: literal cut-offs below this are "smaller than every generic positive value" (see `generic`)
+    SMALL = 1e-3
+
+    def __init__(self, module_funcs, externals=None, number_like=(), generic=()):
         """module_funcs: name -> ast.FunctionDef of the module (helpers are interpreted on call);
         externals: name -> Python callable standing for a library routine (solve_ivp, ...);
         number_like: indeterminates that `isinstance(v, Number)` accepts."""
         self.module_funcs = module_funcs
         self.externals = dict(externals or {})
         self.number_like = set(number_like)
+        # indeterminates standing for a *generic* positive quantity (a radius away from the origin):
+        # non-zero and larger than every literal cut-off below SMALL
+        self.generic = set(generic)
         self.depth = 0
         self.trace = []
 
     # -- calls
-    def call_def(self, node, args, kw, outer_env):
+    def call_def(self, node, args, kw, outer_env, bound_defaults=None):
         params = [a.arg for a in node.args.args]
         defaults = node.args.defaults
         env = dict(outer_env)
-        for p_, d in zip(params[len(params) - len(defaults):], defaults):
-            env[p_] = self.ev(d, outer_env)
+        for p_ in params:
+            env.pop(p_, None)
+        if bound_defaults is not None:
+            env.update(bound_defaults)
+        else:
+            for p_, d in zip(params[len(params) - len(defaults):], defaults):
+                env[p_] = self.ev(d, outer_env)
         if len(args) > len(params):
             raise Undecided(f"too many arguments for {node.name}")
         for p_, a in zip(params, args):
             env[p_] = a
+        params_kwonly = [a.arg for a in node.args.kwonlyargs]
+        for a, d in zip(node.args.kwonlyargs, node.args.kw_defaults):
+            if d is not None:
+                env[a.arg] = self.ev(d, outer_env)
+        extra = {}
         for k_, v in kw.items():
-            if k_ not in params:
+            if k_ in params or k_ in params_kwonly:
+                env[k_] = v
+            elif node.args.kwarg is not None:
+                extra[k_] = v
+            else:
                 raise Undecided(f"unknown keyword {k_} for {node.name}")
-            env[k_] = v
+        if node.args.kwarg is not None:
+            env[node.args.kwarg.arg] = extra
+        params = params + params_kwonly
         missing = [p_ for p_ in params if p_ not in env]
         if missing:
             raise Undecided(f"{node.name}: no value for parameter(s) {missing}")
@@ -268,6 +309,11 @@ class Interp:
             raise Undecided("an unconditional raise is reached")
         if isinstance(s, ast.Pass):
             return
+        if isinstance(s, ast.With):
+            if all(isinstance(i.context_expr, ast.Call) and norm(i.context_expr.func) in ("np.errstate", "warnings.catch_warnings")
+                   and i.optional_vars is None for i in s.items):
+                self.block(s.body, env)
+                return
         raise Undecided(f"statement `{norm(s)[:60]}`")
 
     def assign(self, t, v, env):
@@ -312,7 +358,12 @@ class Interp:
         if isinstance(sl, ast.Slice):
             f = lambda e: None if e is None else self._int(self.ev(e, env))
             return slice(f(sl.lower), f(sl.upper), f(sl.step))
-        return self._int(self.ev(sl, env))
+        v = self.ev(sl, env)
+        if isinstance(v, np.ndarray) and v.dtype == bool:
+            return v
+        if isinstance(v, str):
+            return v
+        return self._int(v)
 
     def _int(self, v):
         if isinstance(v, (int, np.integer)) and not isinstance(v, bool):
@@ -330,9 +381,19 @@ class Interp:
         if isinstance(a, (list, tuple)) or isinstance(b, (list, tuple)):
             if isinstance(op, ast.Add) and isinstance(a, (list, tuple)) and isinstance(b, type(a)):
                 return a + b
-            if isinstance(op, ast.Mult) and isinstance(a, list) and isinstance(b, int):
-                return a * b
+            if isinstance(op, ast.Mult) and isinstance(a, list) and isinstance(b, (int, sp.Integer)):
+                return a * int(b)
             raise Undecided("list arithmetic")
+        if all(isinstance(v, (int, np.integer)) and not isinstance(v, bool) for v in (a, b)):
+            a, b = int(a), int(b)
+            if isinstance(op, ast.Add):
+                return a + b
+            if isinstance(op, ast.Sub):
+                return a - b
+            if isinstance(op, ast.Mult):
+                return a * b
+            if isinstance(op, ast.Pow) and b >= 0:
+                return a ** b
         a = sp.Integer(a) if isinstance(a, int) and not isinstance(a, bool) else a
         if isinstance(a, float):
             a = sp.nsimplify(a)
@@ -362,12 +423,12 @@ class Interp:
         if isinstance(e, ast.Name):
             if e.id in env:
                 return env[e.id]
-            if e.id in self.module_funcs:
-                return ("modfunc", e.id)
             if e.id in self.externals:
                 return self.externals[e.id]
+            if e.id in self.module_funcs:
+                return ("modfunc", e.id)
             if e.id in ("float", "int", "len", "range", "enumerate", "list", "tuple", "min", "max", "isinstance",
-                        "callable", "zip", "Number", "Real", "Integral", "bool", "abs", "reversed", "sum"):
+                        "callable", "zip", "Number", "Real", "Integral", "bool", "abs", "reversed", "sum", "dict", "type"):
                 return ("builtin", e.id)
             raise Undecided(f"name `{e.id}`")
         if isinstance(e, ast.UnaryOp):
@@ -405,6 +466,10 @@ class Interp:
             return out if isinstance(e, ast.List) else tuple(out)
         if isinstance(e, (ast.ListComp, ast.GeneratorExp)):
             return self.comp(e, env)
+        if isinstance(e, ast.Dict):
+            if any(k is None for k in e.keys):
+                raise Undecided("dict unpacking in a display")
+            return {self.ev(k, env): self.ev(v, env) for k, v in zip(e.keys, e.values)}
         if isinstance(e, ast.Subscript):
             base = self.ev(e.value, env)
             idx = self.index(e.slice, env)
@@ -413,6 +478,10 @@ class Interp:
                     return base[idx]
                 except (IndexError, TypeError) as ex:
                     raise Undecided(f"`{norm(e)[:50]}`: {ex}") from ex
+            if isinstance(base, dict):
+                return base[idx]
+            if isinstance(base, Obj) and "__getitem__" in base.attrs:
+                return base.attrs["__getitem__"](idx)
             raise Undecided(f"subscript of `{norm(e.value)[:40]}`")
         if isinstance(e, ast.Attribute):
             return self.attribute(e, env)
@@ -432,24 +501,47 @@ class Interp:
             if isinstance(op, (ast.Is, ast.IsNot)):
                 r = (left is right) or (left is None and right is None)
                 r = r if isinstance(op, ast.Is) else not r
+            elif isinstance(left, np.ndarray) or isinstance(right, np.ndarray):
+                if len(e.ops) != 1:
+                    raise Undecided("chained comparison of arrays")
+                la = left if isinstance(left, np.ndarray) else None
+                ra = right if isinstance(right, np.ndarray) else None
+                shape = (la if la is not None else ra).shape
+                out = np.empty(shape, dtype=bool)
+                for idx in np.ndindex(shape):
+                    out[idx] = self._cmp(op, la[idx] if la is not None else left, ra[idx] if ra is not None else right)
+                return out
             else:
-                def num(v):
-                    if isinstance(v, bool):
-                        return None
-                    if isinstance(v, (int, np.integer)):
-                        return int(v)
-                    if isinstance(v, sp.Integer):
-                        return int(v)
-                    return None
-                a, b = num(left), num(right)
-                if a is None or b is None:
-                    raise Undecided("a comparison of symbolic data")
-                r = {ast.Eq: a == b, ast.NotEq: a != b, ast.Lt: a < b, ast.LtE: a <= b,
-                     ast.Gt: a > b, ast.GtE: a >= b}[type(op)]
+                r = self._cmp(op, left, right)
             if not r:
                 return False
             left = right
         return True
+
+    def _cmp(self, op, left, right):
+        def num(v):
+            if isinstance(v, bool):
+                return None
+            if isinstance(v, (int, float, np.integer, np.floating)):
+                return v
+            if isinstance(v, (sp.Integer, sp.Rational, sp.Float)):
+                return float(v) if not isinstance(v, sp.Integer) else int(v)
+            return None
+        a, b = num(left), num(right)
+        if a is None or b is None:
+            # a generic positive quantity against a literal
+            flip = {ast.Lt: ast.Gt, ast.Gt: ast.Lt, ast.LtE: ast.GtE, ast.GtE: ast.LtE, ast.Eq: ast.Eq, ast.NotEq: ast.NotEq}
+            if a is not None and b is None:
+                return self._cmp(flip[type(op)](), right, left)
+            if b is not None and a is None:
+                g = left
+                if isinstance(g, sp.Abs) and g.args[0] in self.generic:
+                    g = g.args[0]
+                if g in self.generic and 0 <= b < self.SMALL:
+                    return {ast.Eq: False, ast.NotEq: True, ast.Lt: False, ast.LtE: False, ast.Gt: True, ast.GtE: True}[type(op)]
+            raise Undecided("a comparison of symbolic data")
+        return {ast.Eq: a == b, ast.NotEq: a != b, ast.Lt: a < b, ast.LtE: a <= b,
+                ast.Gt: a > b, ast.GtE: a >= b}[type(op)]
 
     def comp(self, e, env):
         out = []
@@ -475,6 +567,8 @@ class Interp:
     def attribute(self, e, env):
         base = self.ev(e.value, env) if not (isinstance(e.value, ast.Name) and e.value.id in ("np", "numpy", "warnings")) else None
         if base is None and isinstance(e.value, ast.Name):
+            if e.attr == "pi":
+                return sp.pi
             return ("np", e.attr)
         if isinstance(base, Obj):
             if e.attr in base.attrs:
@@ -493,6 +587,8 @@ class Interp:
                 return ("method", base, e.attr)
         if isinstance(base, list) and e.attr == "append":
             return ("method", base, "append")
+        if isinstance(base, dict) and e.attr in ("setdefault", "get", "items", "keys", "values"):
+            return ("method", base, e.attr)
         raise Undecided(f"attribute `{norm(e)[:50]}`")
 
     def call(self, e, env):
@@ -503,9 +599,17 @@ class Interp:
                 args.extend(list(self.ev(a.value, env)))
             else:
                 args.append(self.ev(a, env))
-        kw = {k.arg: self.ev(k.value, env) for k in e.keywords if k.arg is not None}
-        if isinstance(f, (Fn, Closure)):
-            return f(*args, **kw) if isinstance(f, Closure) else f(*args)
+        kw = {}
+        for k in e.keywords:
+            if k.arg is not None:
+                kw[k.arg] = self.ev(k.value, env)
+            else:
+                d = self.ev(k.value, env)
+                if not isinstance(d, dict):
+                    raise Undecided("** of a non-dict")
+                kw.update(d)
+        if isinstance(f, (Fn, Closure, Cls)):
+            return f(*args, **kw) if not isinstance(f, Fn) else f(*args)
         if callable(f) and not isinstance(f, tuple):
             return f(*args, **kw)
         if isinstance(f, tuple) and f[0] == "modfunc":
@@ -526,6 +630,12 @@ class Interp:
             if name == "append":
                 base.append(args[0])
                 return None
+            if name == "setdefault":
+                return base.setdefault(args[0], args[1] if len(args) > 1 else None)
+            if name == "get":
+                return base.get(args[0], args[1] if len(args) > 1 else None)
+            if name in ("items", "keys", "values"):
+                return list(getattr(base, name)())
         if isinstance(f, tuple) and f[0] == "builtin":
             return self.builtin(f[1], args, kw)
         if isinstance(f, tuple) and f[0] == "np":
@@ -557,9 +667,17 @@ class Interp:
             return tot
         if name == "callable":
             return isinstance(args[0], (Fn, Closure))
+        if name == "dict":
+            return dict(args[0]) if args else dict(kw)
+        if name == "type":
+            return ("type", type(args[0]).__name__)
         if name == "isinstance":
             v, kinds = args
-            kinds = kinds if isinstance(kinds, (tuple, list)) else (kinds,)
+            kinds = kinds if isinstance(kinds, (tuple, list)) and not (isinstance(kinds, tuple) and len(kinds) == 2 and kinds[0] in ("builtin", "type")) else (kinds,)
+            if any(isinstance(k, Cls) for k in kinds):
+                if not all(isinstance(k, Cls) for k in kinds):
+                    raise Undecided("isinstance with mixed kinds")
+                return isinstance(v, Obj) and v.cls in {k.name for k in kinds}
             names = {k[1] for k in kinds if isinstance(k, tuple)}
             if names <= {"Number", "Real", "float", "int", "Integral"}:
                 if isinstance(v, (Fn, Closure, Obj, np.ndarray, list, tuple)) or v is None:
@@ -581,7 +699,7 @@ class Interp:
         raise Undecided(f"builtin {name}")
 
     def numpy(self, name, args, kw, e):
-        if name == "zeros":
+        if name in ("zeros", "empty"):
             shp = args[0]
             shp = tuple(self._int(x) for x in shp) if isinstance(shp, (tuple, list)) else (self._int(shp),)
             out = np.empty(shp, dtype=object)
@@ -611,7 +729,46 @@ class Interp:
             if a.size == 0 or b.size == 0:
                 return np.empty(a.shape[:-1] + b.shape[1:], dtype=object)
             return a.dot(b)
-        if name in ("any", "all", "isinf", "isnan", "abs"):
+        if name == "pi":
+            return sp.pi
+        if name == "exp":
+            v = args[0]
+            if isinstance(v, np.ndarray):
+                out = np.empty(v.shape, dtype=object)
+                for idx in np.ndindex(v.shape):
+                    out[idx] = sp.exp(v[idx])
+                return out
+            return sp.exp(v)
+        if name == "sum":
+            v = args[0] if isinstance(args[0], np.ndarray) else _obj_array(args[0])
+            axis = kw.get("axis", args[1] if len(args) > 1 else None)
+            if v.size == 0:
+                return sp.Integer(0)
+            return v.sum(axis=None if axis is None else self._int(axis))
+        if name == "tile":
+            v = args[0] if isinstance(args[0], np.ndarray) else _obj_array(args[0])
+            reps = args[1]
+            reps = tuple(self._int(x) for x in reps) if isinstance(reps, (tuple, list)) else (self._int(reps),)
+            return np.tile(v, reps)
+        if name == "arange":
+            return [int(x) for x in range(*[self._int(a) for a in args])]
+        if name in ("abs", "absolute"):
+            v = args[0]
+            if isinstance(v, np.ndarray):
+                out = np.empty(v.shape, dtype=object)
+                for idx in np.ndindex(v.shape):
+                    out[idx] = v[idx] if v[idx] in self.generic else sp.Abs(v[idx])
+                return out
+            return v if v in self.generic else sp.Abs(v)
+        if name in ("any", "all"):
+            v = args[0]
+            if isinstance(v, np.ndarray) and v.dtype == bool:
+                return bool(getattr(np, name)(v))
+            raise Undecided(f"np.{name} of symbolic data")
+        if name == "einsum":
+            ops = [x if isinstance(x, np.ndarray) else _obj_array(x) for x in args[1:]]
+            return np.einsum(args[0], *ops)
+        if name in ("isinf", "isnan"):
             raise Undecided(f"np.{name} of symbolic data")
         raise Undecided(f"np.{name}")
 
